@@ -77,16 +77,23 @@ def check_C10(tier, replay):
                 jobs.append({"kind": "Dealer", "id": f"dealer.n{n}.l{l}", "n": n, "l_rand": l, "l_and": la, "seed": 1})
     res = _judge(v, "C10", "Mon_C10", vlib.MON_CFG, jobs, "pre", wd, lambda x: x["what"].split(":")[0],
                  weight=lambda j: j["n"] * j["n"] * (min(j["l_rand"], j.get("sample") or j["l_rand"]) + 3 * j["l_and"]), budget=120000)
+    pm, pstates = ({}, 0)
+    if not replay:
+        from . import adv
+        pm, pstates = adv.pre_model(v, tier, wd, "C10")
     v.coverage = {
-        "states": max(res["checked"], 1), "transitions": max(res["checked"], 1),
+        "states": max(res["checked"], 1) + pstates, "transitions": max(res["checked"], 1) + pstates,
         "traces_validated_against_impl": res["checked"],
         "samples": [jobs[0], jobs[-1]],
         "evaluations": len(jobs), "distinct_nontrivial": len({(j["kind"], j["n"], j["l_rand"], j["l_and"]) for j in jobs}),
         "relations_evaluated_by_tlc": res["relations"],
         "rule": "each evaluation = one real run of the distributed preprocessing (coin tossing, aShare, aAND, Beaver) or of the "
                 "trusted dealer for (n, number of random shares, number of AND triples); TLC evaluates ShareRel for every ordered "
-                "pair and every (sampled, for long batches) index, TripleRel for every triple and SameCoins",
+                "pair and every (sampled, for long batches) index, TripleRel for every triple and SameCoins; the symbolic "
+                "model Wrk17Pre (leaky AND, bucket combination, Beaver) is checked exhaustively for HonestCorrect / "
+                "PassImpliesCorrect over all share bits",
     }
+    v.coverage.update(pm)
     v.assumptions = ["values exported by the verification wrappers are the values handed to the online phase",
                      "bucket size 3 (>= 280000 triples per batch) is not exercised"]
     rc = v.finish()
@@ -366,6 +373,7 @@ def check_C07(tier, replay):
     res = vlib.tlc_trace("Mon_C07", vlib.MON_CFG, out, wd, depth_first=False, timeout=3600)
     jb = {j["id"]: j for j in jobs}
     sym = ashare_model(v, tier, wd, jobs, out) if not replay else {}
+    pm = adv.pre_model(v, tier, wd, "C07", jobs, out)[0] if not replay else {}
     for x in res.get("viol", []):
         j = jb[x["run"]]
         v.violation(f"C07: {x['what']} [{j['tag'].get('what', 'honest run')}]", {"kind": "engine-job", "job": j, "party": x["p"]},
@@ -380,6 +388,7 @@ def check_C07(tier, replay):
         "transcripts_scanned": res["checked"], "fields_scanned": res["fields"],
         "symbolic_ashare_model": sym,
     }
+    v.coverage.update(pm)
     v.assumptions = ["opaque byte strings (OT matrix, base-OT points, row ciphertexts) are scanned only as raw bytes for the key itself",
                      "three-element XOR sets only in the thorough tier on one small configuration"]
     rc = v.finish()
